@@ -3109,17 +3109,25 @@ xml2_read_cb(void *context, char *buffer, int len)
 	a = (struct archive_read *)context;
 	xar = (struct xar *)(a->format->data);
 
-	if (xar->toc_remaining <= 0)
-		return (0);
-	d = buffer;
-	outbytes = len;
-	r = rd_contents(a, &d, &outbytes, &used, xar->toc_remaining);
-	if (r != ARCHIVE_OK)
-		return (r);
-	__archive_read_consume(a, used);
-	xar->toc_remaining -= used;
-	xar->offset += used;
-	xar->toc_total += outbytes;
+	/*
+	 * A return value of zero tells libxml2 that the input has ended, so
+	 * keep feeding the decompressor until it produces output: with small
+	 * read blocks a call may consume input without emitting anything.
+	 */
+	do {
+		if (xar->toc_remaining <= 0)
+			return (0);
+		d = buffer;
+		outbytes = len;
+		used = 0;
+		r = rd_contents(a, &d, &outbytes, &used, xar->toc_remaining);
+		if (r != ARCHIVE_OK)
+			return (r);
+		__archive_read_consume(a, used);
+		xar->toc_remaining -= used;
+		xar->offset += used;
+		xar->toc_total += outbytes;
+	} while (outbytes == 0);
 	PRINT_TOC(buffer, len);
 
 	return ((int)outbytes);
